@@ -130,7 +130,7 @@ def run_case(case, exe, stubdir, workroot, R, keep=False):
 
 
 def foreign_name(decl):
-    for n in ("MyVtblThing", "RetTmp_like", "Render_Context", "TaggedHandle", "Tagged", "render_frame", "render_scene"):
+    for n in ("MyVtblThing", "RetTmp_like", "Render_Context", "TaggedHandle", "Tagged", "render_frame", "use_thing", "use_tmp", "use_rctx", "use_handle"):
         if ("struct %s " % n) in decl or ("struct %s_" % n) in decl or (" %s;" % n) in decl or ("using %s =" % n) in decl or (" %s(" % n) in decl:
             return n
     return "other"
